@@ -33,4 +33,565 @@ theorem tproxySubnet_match (v6 : Bool) (pr : Proto) (s : Subnet) (p : Pkt) (mark
   simp [matchRule, destMatch, subnetDest, portsMatch, Spec.entryMatches, Spec.contains, inPrefix,
     Spec.famBits, Spec.pktFam, bits, Spec.anyPort, hfam, hb, hf, af_inet, af_inet6]
 
+/-- A chain in which every rule is terminal **or does not match this packet** is `find?`. -/
+theorem walkList_simple' (call : ChainName → Option String → Res) (p : Pkt) (rs : List Rule)
+    (mark : Option String)
+    (h : ∀ r ∈ rs, r.t.simple = true ∨ matchRule r.m p mark = false) :
+    walkList call p rs mark =
+      match rs.find? (fun r => matchRule r.m p mark) with
+      | none => .fall mark
+      | some r => termRes r.t mark := by
+  induction rs with
+  | nil => simp [walkList]
+  | cons r t ih =>
+    have hr := h r (List.mem_cons_self)
+    have ht := ih (fun x hx => h x (List.mem_cons_of_mem _ hx))
+    unfold walkList
+    by_cases hm : matchRule r.m p mark = true
+    · rw [if_pos hm, List.find?_cons_of_pos (by simpa using hm)]
+      rcases hr with hr | hr
+      · cases hrt : r.t <;> simp_all [Target.simple, termRes]
+      · rw [hm] at hr; cases hr
+    · rw [if_neg hm, List.find?_cons_of_neg (by simpa using hm)]
+      exact ht
+
+/-- A chain whose rules only `RETURN` or set the mark `x` (MARK is non-terminating): once marked,
+the packet leaves the chain marked. -/
+theorem walkList_markOnly_marked (call : ChainName → Option String → Res) (p : Pkt) (x : String)
+    (rs : List Rule) (h : ∀ r ∈ rs, r.t = .ret ∨ r.t = .setMark x) :
+    walkList call p rs (some x) = .fall (some x) := by
+  induction rs with
+  | nil => rfl
+  | cons r t ih =>
+    have ht := ih (fun y hy => h y (List.mem_cons_of_mem _ hy))
+    unfold walkList
+    by_cases hm : matchRule r.m p (some x) = true
+    · rw [if_pos hm]
+      rcases h r List.mem_cons_self with hr | hr <;> rw [hr]
+      exact ht
+    · rw [if_neg hm]; exact ht
+
+/-- … and the packet leaves marked iff the FIRST matching rule is a MARK rule. -/
+theorem walkList_markOnly (call : ChainName → Option String → Res) (p : Pkt) (x : String)
+    (rs : List Rule) (m0 : Option String) (h : ∀ r ∈ rs, r.t = .ret ∨ r.t = .setMark x) :
+    walkList call p rs m0 =
+      match rs.find? (fun r => matchRule r.m p m0) with
+      | none => .fall m0
+      | some r => if r.t = .ret then .fall m0 else .fall (some x) := by
+  induction rs with
+  | nil => simp [walkList]
+  | cons r t ih =>
+    have hall := fun y hy => h y (List.mem_cons_of_mem r hy)
+    have ht := ih hall
+    unfold walkList
+    by_cases hm : matchRule r.m p m0 = true
+    · rw [if_pos hm, List.find?_cons_of_pos (by simpa using hm)]
+      rcases h r List.mem_cons_self with hr | hr
+      · simp [hr]
+      · simp only [hr]
+        rw [walkList_markOnly_marked call p x t hall]
+        simp
+    · rw [if_neg hm, List.find?_cons_of_neg (by simpa using hm)]
+      exact ht
+
+theorem findSome?_ite_of_forall {α β : Type} (l : List α) (g : α → Option β) (q : α → Bool)
+    (r : α → β) (h : ∀ a ∈ l, g a = if q a = true then some (r a) else none) :
+    l.findSome? g = (l.find? q).map r := by
+  induction l with
+  | nil => rfl
+  | cons a t ih =>
+    have ha := h a List.mem_cons_self
+    have ht := ih (fun b hb => h b (List.mem_cons_of_mem _ hb))
+    by_cases hq : q a = true
+    · simp [List.findSome?_cons, ha, hq]
+    · simp [List.findSome?_cons, ha, hq, ht]
+
+/-- Rules a list of pure `-A` commands appends to chain `k`. -/
+def appendsFor (k : ChainKey) : Cmd → Option Rule
+  | .iptAppend v6 t c r => if (⟨.ipt v6 t, c⟩ : ChainKey) = k then some r else none
+  | _ => none
+
+def isAppend : Cmd → Bool
+  | .iptAppend _ _ _ _ => true
+  | _ => false
+
+theorem foldl_appends_get (cmds : List Cmd) (rs : Ruleset) (k : ChainKey)
+    (h : ∀ cmd ∈ cmds, isAppend cmd = true) :
+    (cmds.foldl applyCmd rs).get k = rs.get k ++ cmds.filterMap (appendsFor k) := by
+  induction cmds generalizing rs with
+  | nil => simp
+  | cons cmd rest ih =>
+    have hc := h cmd List.mem_cons_self
+    rw [List.foldl_cons, ih _ (fun x hx => h x (List.mem_cons_of_mem _ hx))]
+    cases cmd with
+    | iptAppend v6 t c r =>
+      simp only [applyCmd, get_set, List.filterMap_cons, appendsFor]
+      by_cases hk : (⟨.ipt v6 t, c⟩ : ChainKey) = k
+      · simp [hk]
+      · simp [hk]
+    | _ => simp [isAppend] at hc
+
+theorem tproxyAppends_isAppend (c : Call) : ∀ cmd ∈ tproxyAppends c, isAppend cmd = true := by
+  intro cmd h
+  unfold tproxyAppends at h
+  simp only [List.mem_append, List.mem_flatMap, List.mem_cons, List.not_mem_nil, or_false] at h
+  rcases h with (((⟨ns, _, h⟩ | h) | h) | ⟨s, _, h⟩)
+  · rcases h with rfl | rfl <;> rfl
+  · rcases h with rfl | rfl | rfl | rfl | rfl <;> rfl
+  · split at h
+    · simp only [List.mem_cons, List.not_mem_nil, or_false] at h; subst h; rfl
+    · cases h
+  · rcases h with (rfl | rfl) | h
+    · rfl
+    · rfl
+    · split at h
+      · simp only [List.mem_cons, List.not_mem_nil, or_false] at h
+        rcases h with rfl | rfl <;> rfl
+      · cases h
+
+theorem flatMap_singleton_map {α β : Type} (l : List α) (f : α → β) :
+    (l.flatMap fun a => [f a]) = l.map f := by
+  induction l <;> simp [*]
+
+theorem tproxyAppends_mark (c : Call) :
+    (tproxyAppends c).filterMap (appendsFor ⟨.ipt (isV6 c.family) .mangle, .tMark c.port⟩) =
+      tproxyMarkChain c := by
+  unfold tproxyAppends tproxyMarkChain tproxyMarkRules
+  simp only [List.filterMap_append, List.filterMap_flatMap]
+  cases c.udp <;>
+  simp [appendsFor, socketRule, flatMap_singleton_map]
+
+theorem tproxyAppends_tproxy (c : Call) :
+    (tproxyAppends c).filterMap (appendsFor ⟨.ipt (isV6 c.family) .mangle, .tTproxy c.port⟩) =
+      tproxyTproxyChain c := by
+  unfold tproxyAppends tproxyTproxyChain tproxyTproxyRules
+  simp only [List.filterMap_append, List.filterMap_flatMap]
+  cases c.udp <;>
+  simp [appendsFor, socketRule, flatMap_singleton_map]
+
+theorem tproxyAppends_builtin (c : Call) (b : ChainName) (hb : b = .output ∨ b = .prerouting) :
+    (tproxyAppends c).filterMap (appendsFor ⟨.ipt (isV6 c.family) .mangle, b⟩) = [] := by
+  rw [List.filterMap_eq_nil_iff]
+  intro cmd h
+  unfold tproxyAppends at h
+  simp only [List.mem_append, List.mem_flatMap, List.mem_cons, List.not_mem_nil, or_false] at h
+  rcases h with (((⟨ns, _, h⟩ | h) | h) | ⟨s, _, h⟩)
+  · rcases h with rfl | rfl <;> rcases hb with rfl | rfl <;> simp [appendsFor]
+  · rcases h with rfl | rfl | rfl | rfl | rfl <;> rcases hb with rfl | rfl <;> simp [appendsFor]
+  · split at h
+    · simp only [List.mem_cons, List.not_mem_nil, or_false] at h; subst h
+      rcases hb with rfl | rfl <;> simp [appendsFor]
+    · cases h
+  · rcases h with (rfl | rfl) | h
+    · rcases hb with rfl | rfl <;> simp [appendsFor]
+    · rcases hb with rfl | rfl <;> simp [appendsFor]
+    · split at h
+      · simp only [List.mem_cons, List.not_mem_nil, or_false] at h
+        rcases h with rfl | rfl <;> rcases hb with rfl | rfl <;> simp [appendsFor]
+      · cases h
+
+theorem tproxy_load (c : Call) :
+    (load (tproxyCmds c)).get ⟨.ipt (isV6 c.family) .mangle, .tMark c.port⟩ = tproxyMarkChain c ∧
+    (load (tproxyCmds c)).get ⟨.ipt (isV6 c.family) .mangle, .tTproxy c.port⟩ = tproxyTproxyChain c ∧
+    (load (tproxyCmds c)).get ⟨.ipt (isV6 c.family) .mangle, .output⟩ = [⟨{}, .jump (.tMark c.port)⟩] ∧
+    (load (tproxyCmds c)).get ⟨.ipt (isV6 c.family) .mangle, .prerouting⟩ =
+      [⟨{}, .jump (.tTproxy c.port)⟩] := by
+  unfold load tproxyCmds
+  simp only [List.foldl_append, foldl_appends_get _ _ _ (tproxyAppends_isAppend c),
+    tproxyAppends_mark, tproxyAppends_tproxy, tproxyAppends_builtin c _ (Or.inl rfl),
+    tproxyAppends_builtin c _ (Or.inr rfl)]
+  simp [tproxyPre, applyCmd, Ruleset.set, Ruleset.get, Ruleset.empty]
+/-- The packet is not in the class of the known finding: for an IPv6 call, a UDP port-53
+packet whose destination lies in the /32 of a listed name server IS that name server. -/
+def Mask32Safe (c : Call) (p : Pkt) : Prop :=
+  isV6 c.family = true → p.proto = .udp → p.dport = 53 →
+    ∀ ns ∈ c.nslist, inPrefix 128 ns.addr 32 p.dst = true → ns.addr = p.dst
+
+theorem tproxyDns_match (c : Call) (p : Pkt) (mark : Option String)
+    (hp : p.fam6 = isV6 c.family) (hs : Mask32Safe c p) :
+    ∀ ns ∈ c.nslist, matchRule (tproxyDnsMatch (isV6 c.family) ns) p mark =
+      (p.proto == .udp && p.dport == 53 && ns.addr == p.dst) := by
+  intro ns hns
+  cases hv : isV6 c.family with
+  | false => exact tproxyDns_match_v4 ns p mark (by rw [hp, hv])
+  | true =>
+    have hs' := hs hv
+    rw [hv] at hp
+    obtain ⟨fam6, dst, dport, proto, loc, dl, uid, gid, mk, sock, srcLo⟩ := p
+    simp only at hp hs'
+    subst hp
+    have h53 : Gen.C03.TPROXY_DNS_PORT = 53 := rfl
+    cases proto with
+    | tcp => simp [matchRule, tproxyDnsMatch]
+    | udp =>
+      by_cases hd : dport = 53
+      · have := hs' rfl hd ns hns
+        subst hd
+        simp only [matchRule, tproxyDnsMatch, tproxyDnsWidth, destMatch, portsMatch, bits, h53]
+        by_cases hin : inPrefix 128 ns.addr 32 dst = true
+        · have e : (ns.addr == dst) = true := by simpa using this hin
+          simp [hin, e]
+        · have hne : ¬ ns.addr = dst := by
+            intro h; apply hin; rw [h]; simp [inPrefix]
+          simp [hin, hne]
+      · have hb : (dport == 53) = false := by simpa using hd
+        simp [matchRule, tproxyDnsMatch, portsMatch, h53, hb]
+
+theorem dns_find' (c : Call) (mk : Ns → Rule) (p : Pkt) (mark : Option String)
+    (hfam : c.family = AF_INET ∨ c.family = AF_INET6) (hp : p.fam6 = isV6 c.family)
+    (hm : ∀ ns ∈ c.nslist, matchRule (mk ns).m p mark =
+      (p.proto == .udp && p.dport == 53 && ns.addr == p.dst)) :
+    (((c.nslist.filter (·.fam == c.family)).map mk).find? (fun r => matchRule r.m p mark)).isSome
+      = Spec.isDnsToNs c.nslist p := by
+  rw [Bool.eq_iff_iff, List.find?_isSome]
+  unfold Spec.isDnsToNs
+  rw [pktFam_eq hfam hp]
+  simp only [List.mem_map, List.mem_filter, Bool.and_eq_true, List.any_eq_true, beq_iff_eq]
+  constructor
+  · rintro ⟨r, ⟨ns, ⟨hns, hf⟩, rfl⟩, hr⟩
+    rw [hm ns hns] at hr
+    simp only [Bool.and_eq_true, beq_iff_eq] at hr
+    exact ⟨⟨hr.1.1, hr.1.2⟩, ns, hns, hf, hr.2⟩
+  · rintro ⟨⟨h1, h2⟩, ns, hns, hf, ha⟩
+    refine ⟨mk ns, ⟨ns, ⟨hns, hf⟩, rfl⟩, ?_⟩
+    rw [hm ns hns]
+    simp [h1, h2, ha]
+
+/-- The subnet part of either tproxy chain (`tgt` = what an entry's rules do): the first
+matching rule, if any, belongs to an entry `s0` with `tgt s0`, and the protocol-gated
+"most specific entry is an include" equals `!s0.excl`; no rule matches iff it is false. -/
+theorem tproxy_subnets_find (c : Call) (p : Pkt) (mark : Option String) (tgt : Subnet → Target)
+    (hfam : c.family = AF_INET ∨ c.family = AF_INET6) (hp : p.fam6 = isV6 c.family)
+    (hwf : ∀ s ∈ c.subnets, Spec.WfEntry s ∧ s.fam = c.family) :
+    ∃ o : Option Subnet,
+      (((tproxySorted c).flatMap fun s =>
+          [(⟨tproxySubnetMatch (isV6 c.family) .tcp s, tgt s⟩ : Rule)] ++
+          (if c.udp then [⟨tproxySubnetMatch (isV6 c.family) .udp s, tgt s⟩] else [])).find?
+        (fun r => matchRule r.m p mark)).map (·.t) = o.map tgt ∧
+      (match o with
+       | none => ((p.proto == .tcp || c.udp) && Spec.mostSpecificIsInclude c.subnets p) = false
+       | some s0 => ((p.proto == .tcp || c.udp) && Spec.mostSpecificIsInclude c.subnets p) = !s0.excl) := by
+  have hrev : Gen.C03.TPROXY_SORT_REVERSE = true := rfl
+  simp only [tproxySorted, hrev, sortBy, if_true]
+  rw [List.find?_flatMap]
+  have hg : ∀ s ∈ sortDesc c.subnets,
+      List.find? (fun r : Rule => matchRule r.m p mark)
+        ([(⟨tproxySubnetMatch (isV6 c.family) .tcp s, tgt s⟩ : Rule)] ++
+          (if c.udp then [(⟨tproxySubnetMatch (isV6 c.family) .udp s, tgt s⟩ : Rule)] else [])) =
+      if ((p.proto == .tcp || c.udp) && Spec.entryMatches s p) = true
+      then some ⟨tproxySubnetMatch (isV6 c.family) p.proto s, tgt s⟩ else none := by
+    intro s hs
+    have hsf : s.fam = (if isV6 c.family then AF_INET6 else AF_INET) := by
+      rw [(hwf s (mem_sortDesc.mp hs)).2]; exact famOf_isV6 hfam
+    have h1 := tproxySubnet_match (isV6 c.family) .tcp s p mark hsf hp
+    have h2 := tproxySubnet_match (isV6 c.family) .udp s p mark hsf hp
+    cases hpr : p.proto <;> cases hu : c.udp <;> cases he : Spec.entryMatches s p <;>
+      simp [List.find?_cons, h1, h2, hpr, hu, he]
+  rw [findSome?_ite_of_forall _ _ _ _ hg]
+  cases hok : (p.proto == .tcp || c.udp) with
+  | false =>
+    refine ⟨none, ?_, by simp⟩
+    have : (sortDesc c.subnets).find? (fun s => false && Spec.entryMatches s p) = none := by
+      rw [List.find?_eq_none]; intro s _; simp
+    simp [this]
+  | true =>
+    simp only [Bool.true_and]
+    have hspec := find?_sortDesc_spec c.subnets (fun s => Spec.entryMatches s p) p (fun _ _ => rfl)
+      (fun s hs => (hwf s hs).1)
+    cases hf : (sortDesc c.subnets).find? (fun s => Spec.entryMatches s p) with
+    | none => rw [hf] at hspec; exact ⟨none, by simp, by simpa using hspec⟩
+    | some s0 =>
+      rw [hf] at hspec
+      exact ⟨some s0, by simp, by simpa using hspec.2.2⟩
+/-- What the property says tproxy must divert at all (to either listener). -/
+def tproxyDiverts (c : Call) (p : Pkt) : Bool :=
+  Spec.isDnsToNs c.nslist p ||
+  ((p.proto == .tcp || c.udp) && Spec.mostSpecificIsInclude c.subnets p)
+
+theorem tproxyChain_verdict (c : Call) (call : ChainName → Option String → Res) (p : Pkt)
+    (mark : Option String)
+    (hfam : c.family = AF_INET ∨ c.family = AF_INET6) (hp : p.fam6 = isV6 c.family)
+    (hwf : ∀ s ∈ c.subnets, Spec.WfEntry s ∧ s.fam = c.family)
+    (hnl : p.dstLocal = false) (hsock : p.hasSocket = false) (hs : Mask32Safe c p) :
+    (walkList call p (tproxyTproxyChain c) mark).verdict = Spec.expectedCall c false c.udp p := by
+  have hLm : matchRule localReturn.m p mark = false := by simp [localReturn, matchRule, hnl]
+  have hSm : ∀ pr, matchRule (socketRule pr c.port).m p mark = false := by
+    intro pr; simp [socketRule, matchRule, hsock]
+  have hall : ∀ r ∈ tproxyTproxyChain c, r.t.simple = true ∨ matchRule r.m p mark = false := by
+    intro r hr
+    simp only [tproxyTproxyChain, tproxyTproxyRules, List.mem_append, List.mem_map, List.mem_singleton,
+      List.mem_flatMap] at hr
+    rcases hr with (((⟨ns, _, rfl⟩ | rfl) | rfl) | hr) | ⟨s, _, hr⟩
+    · left; rfl
+    · left; rfl
+    · right; exact hSm _
+    · split at hr
+      · simp only [List.mem_singleton] at hr; subst hr; right; exact hSm _
+      · cases hr
+    · left
+      rcases hr with hr | hr
+      · subst hr; cases s.excl <;> rfl
+      · split at hr
+        · simp only [List.mem_singleton] at hr; subst hr; cases s.excl <;> rfl
+        · cases hr
+  rw [walkList_simple' _ _ _ _ hall]
+  unfold tproxyTproxyChain
+  simp only [List.find?_append]
+  have hL : [localReturn].find? (fun r => matchRule r.m p mark) = none := by
+    simp [hLm]
+  have hS1 : [socketRule .tcp c.port].find? (fun r => matchRule r.m p mark) = none := by
+    simp [hSm]
+  have hS2 : (if c.udp then [socketRule .udp c.port] else []).find? (fun r => matchRule r.m p mark) = none := by
+    split <;> simp [hSm]
+  rw [hL, hS1, hS2]
+  simp only [Option.or_none]
+  have hD := dns_find' c (fun ns => ⟨tproxyDnsMatch (isV6 c.family) ns, .tproxy c.tmark c.dnsport⟩) p mark
+    hfam hp (tproxyDns_match c p mark hp hs)
+  obtain ⟨o, ho, hspec⟩ := tproxy_subnets_find c p mark
+    (fun s => if s.excl then .ret else .tproxy c.tmark c.port) hfam hp hwf
+  unfold Spec.expectedCall
+  simp only [Bool.false_and, Bool.false_eq_true, if_false]
+  cases hfd : ((c.nslist.filter (·.fam == c.family)).map
+      (fun ns => (⟨tproxyDnsMatch (isV6 c.family) ns, .tproxy c.tmark c.dnsport⟩ : Rule))).find?
+      (fun r => matchRule r.m p mark) with
+  | some r =>
+    rw [hfd] at hD
+    simp only [Option.isSome_some] at hD
+    rw [← hD]
+    have hr := List.mem_of_find?_eq_some hfd
+    simp only [List.mem_map] at hr
+    obtain ⟨ns, _, rfl⟩ := hr
+    simp [termRes, Res.verdict]
+  | none =>
+    rw [hfd] at hD
+    simp only [Option.isSome_none] at hD
+    rw [← hD]
+    simp only [Option.none_or, Bool.false_eq_true, if_false]
+    unfold tproxyTproxyRules
+    cases hff : ((tproxySorted c).flatMap fun s =>
+          [(⟨tproxySubnetMatch (isV6 c.family) .tcp s, if s.excl then .ret else .tproxy c.tmark c.port⟩ : Rule)] ++
+          (if c.udp then [⟨tproxySubnetMatch (isV6 c.family) .udp s,
+            if s.excl then .ret else .tproxy c.tmark c.port⟩] else [])).find?
+        (fun r => matchRule r.m p mark) with
+    | none =>
+      rw [hff] at ho
+      cases o with
+      | none => simp only at hspec; simp [hspec, Res.verdict]
+      | some s0 => simp at ho
+    | some r =>
+      rw [hff] at ho
+      cases o with
+      | none => simp at ho
+      | some s0 =>
+        simp only [Option.map_some, Option.some.injEq] at ho
+        simp only at hspec
+        simp only [hspec, ho]
+        cases s0.excl <;> simp [termRes, Res.verdict]
+theorem tproxyMark_walk (c : Call) (call : ChainName → Option String → Res) (p : Pkt)
+    (m0 : Option String)
+    (hfam : c.family = AF_INET ∨ c.family = AF_INET6) (hp : p.fam6 = isV6 c.family)
+    (hwf : ∀ s ∈ c.subnets, Spec.WfEntry s ∧ s.fam = c.family)
+    (hnl : p.dstLocal = false) (hs : Mask32Safe c p) :
+    walkList call p (tproxyMarkChain c) m0 =
+      .fall (if tproxyDiverts c p then some c.tmark else m0) := by
+  have hLm : matchRule localReturn.m p m0 = false := by simp [localReturn, matchRule, hnl]
+  have hall : ∀ r ∈ tproxyMarkChain c, r.t = .ret ∨ r.t = .setMark c.tmark := by
+    intro r hr
+    simp only [tproxyMarkChain, tproxyMarkRules, List.mem_append, List.mem_map, List.mem_singleton,
+      List.mem_flatMap] at hr
+    rcases hr with ((⟨ns, _, rfl⟩ | rfl) | ⟨s, _, hr⟩)
+    · right; rfl
+    · left; rfl
+    · rcases hr with hr | hr
+      · subst hr; cases s.excl <;> simp
+      · split at hr
+        · simp only [List.mem_singleton] at hr; subst hr; cases s.excl <;> simp
+        · cases hr
+  rw [walkList_markOnly _ _ _ _ _ hall]
+  unfold tproxyMarkChain tproxyDiverts
+  simp only [List.find?_append]
+  have hL : [localReturn].find? (fun r => matchRule r.m p m0) = none := by simp [hLm]
+  rw [hL]
+  simp only [Option.or_none]
+  have hD := dns_find' c (fun ns => ⟨tproxyDnsMatch (isV6 c.family) ns, .setMark c.tmark⟩) p m0
+    hfam hp (tproxyDns_match c p m0 hp hs)
+  obtain ⟨o, ho, hspec⟩ := tproxy_subnets_find c p m0
+    (fun s => if s.excl then .ret else .setMark c.tmark) hfam hp hwf
+  cases hfd : ((c.nslist.filter (·.fam == c.family)).map
+      (fun ns => (⟨tproxyDnsMatch (isV6 c.family) ns, .setMark c.tmark⟩ : Rule))).find?
+      (fun r => matchRule r.m p m0) with
+  | some r =>
+    rw [hfd] at hD
+    simp only [Option.isSome_some] at hD
+    rw [← hD]
+    have hr := List.mem_of_find?_eq_some hfd
+    simp only [List.mem_map] at hr
+    obtain ⟨ns, _, rfl⟩ := hr
+    simp
+  | none =>
+    rw [hfd] at hD
+    simp only [Option.isSome_none] at hD
+    rw [← hD]
+    simp only [Option.none_or, Bool.false_or]
+    unfold tproxyMarkRules
+    cases hff : ((tproxySorted c).flatMap fun s =>
+          [(⟨tproxySubnetMatch (isV6 c.family) .tcp s, if s.excl then .ret else .setMark c.tmark⟩ : Rule)] ++
+          (if c.udp then [⟨tproxySubnetMatch (isV6 c.family) .udp s,
+            if s.excl then .ret else .setMark c.tmark⟩] else [])).find?
+        (fun r => matchRule r.m p m0) with
+    | none =>
+      rw [hff] at ho
+      cases o with
+      | none => simp only at hspec; simp [hspec]
+      | some s0 => simp at ho
+    | some r =>
+      rw [hff] at ho
+      cases o with
+      | none => simp at ho
+      | some s0 =>
+        simp only [Option.map_some, Option.some.injEq] at ho
+        simp only at hspec
+        simp only [hspec, ho]
+        cases s0.excl <;> simp
+
+theorem expectedCall_untouched_of_not_diverts (c : Call) (p : Pkt) (h : tproxyDiverts c p = false) :
+    Spec.expectedCall c false c.udp p = .untouched := by
+  unfold tproxyDiverts at h
+  simp only [Bool.or_eq_false_iff] at h
+  simp [Spec.expectedCall, h.1, h.2]
+
+/-- tproxy, whole pipeline. -/
+theorem tproxy_verdict (c : Call) (p : Pkt)
+    (hfam : c.family = AF_INET ∨ c.family = AF_INET6) (hp : p.fam6 = isV6 c.family)
+    (hwf : ∀ s ∈ c.subnets, Spec.WfEntry s ∧ s.fam = c.family)
+    (hnl : p.dstLocal = false) (hsock : p.hasSocket = false)
+    (hmark : p.mark ≠ some c.tmark) (hs : Mask32Safe c p) :
+    verdictTproxy (load (tproxyCmds c)) p = Spec.expectedCall c false c.udp p := by
+  obtain ⟨hM, hT, hO, hP⟩ := tproxy_load c
+  have hpre : ∀ mark, (walkChain (load (tproxyCmds c)) (.ipt (isV6 c.family) .mangle) p walkFuel
+      .prerouting mark).verdict = Spec.expectedCall c false c.udp p := by
+    intro mark
+    show (walkChain _ _ _ (3 + 1) _ _).verdict = _
+    rw [walkChain_succ, hP, walkList_jump_single]
+    rw [walkChain_succ, hT, tproxyChain_verdict c _ p mark hfam hp hwf hnl hsock hs]
+    simp [matchRule]
+  have hout : walkChain (load (tproxyCmds c)) (.ipt (isV6 c.family) .mangle) p walkFuel .output p.mark
+      = .fall (if tproxyDiverts c p then some c.tmark else p.mark) := by
+    show walkChain _ _ _ (3 + 1) _ _ = _
+    rw [walkChain_succ, hO]
+    unfold walkList
+    simp only [matchRule, Bool.not_false, Bool.true_or, Bool.and_self, if_true]
+    rw [walkChain_succ, hM, tproxyMark_walk c _ p p.mark hfam hp hwf hnl hs]
+    simp [walkList]
+  unfold verdictTproxy
+  rw [hp, hout]
+  simp only [hpre, Res.markOr]
+  cases hd : tproxyDiverts c p with
+  | false => simp [expectedCall_untouched_of_not_diverts c p hd]
+  | true =>
+    have : ¬ (some c.tmark = p.mark) := fun h => hmark h.symm
+    simp [this]
+
+theorem expectedCall_diverts (c : Call) (p : Pkt) :
+    (Spec.expectedCall c false c.udp p ≠ .untouched) ↔ tproxyDiverts c p = true := by
+  unfold tproxyDiverts Spec.expectedCall
+  cases Spec.isDnsToNs c.nslist p <;>
+  cases ((p.proto == .tcp || c.udp) && Spec.mostSpecificIsInclude c.subnets p) <;> simp
+
+theorem mask32Safe_v4 (c : Call) (p : Pkt) (h : isV6 c.family = false) : Mask32Safe c p := by
+  intro hv; rw [h] at hv; cases hv
+
+theorem tproxyChain_local (c : Call) (call : ChainName → Option String → Res) (p : Pkt)
+    (mark : Option String)
+    (hfam : c.family = AF_INET ∨ c.family = AF_INET6) (hp : p.fam6 = isV6 c.family)
+    (hl : p.dstLocal = true) (hs : Mask32Safe c p) :
+    (walkList call p (tproxyTproxyChain c) mark).verdict =
+      if Spec.isDnsToNs c.nslist p then .divert c.dnsport else .untouched := by
+  have hLm : matchRule localReturn.m p mark = true := by simp [localReturn, matchRule, hl]
+  have hD := dns_find' c (fun ns => ⟨tproxyDnsMatch (isV6 c.family) ns, .tproxy c.tmark c.dnsport⟩) p mark
+    hfam hp (tproxyDns_match c p mark hp hs)
+  unfold tproxyTproxyChain
+  simp only [List.append_assoc, List.singleton_append, List.cons_append]
+  -- the walk never gets past the LOCAL rule
+  have key : ∀ (D rest : List Rule), (∀ r ∈ D, r.t = .tproxy c.tmark c.dnsport) →
+      (walkList call p (D ++ localReturn :: rest) mark).verdict =
+        if (D.find? (fun r => matchRule r.m p mark)).isSome then .divert c.dnsport else .untouched := by
+    intro D rest hDt
+    induction D with
+    | nil => simp [walkList, localReturn, matchRule, hl, Res.verdict]
+    | cons r t ih =>
+      have hr := hDt r List.mem_cons_self
+      have iht := ih (fun x hx => hDt x (List.mem_cons_of_mem _ hx))
+      rw [List.cons_append]
+      unfold walkList
+      by_cases hm : matchRule r.m p mark = true
+      · rw [if_pos hm, hr, List.find?_cons_of_pos (by simpa using hm)]
+        simp [Res.verdict]
+      · rw [if_neg hm, List.find?_cons_of_neg (by simpa using hm)]
+        exact iht
+  rw [key _ _ (by intro r hr; simp only [List.mem_map] at hr; obtain ⟨ns, _, rfl⟩ := hr; rfl), hD]
+
+theorem tproxyMark_local (c : Call) (call : ChainName → Option String → Res) (p : Pkt)
+    (m0 : Option String)
+    (hfam : c.family = AF_INET ∨ c.family = AF_INET6) (hp : p.fam6 = isV6 c.family)
+    (hl : p.dstLocal = true) (hs : Mask32Safe c p) :
+    walkList call p (tproxyMarkChain c) m0 =
+      .fall (if Spec.isDnsToNs c.nslist p then some c.tmark else m0) := by
+  have hD := dns_find' c (fun ns => ⟨tproxyDnsMatch (isV6 c.family) ns, .setMark c.tmark⟩) p m0
+    hfam hp (tproxyDns_match c p m0 hp hs)
+  unfold tproxyMarkChain
+  simp only [List.append_assoc, List.singleton_append]
+  have key : ∀ (D rest : List Rule) (m : Option String), (∀ r ∈ D, r.t = .setMark c.tmark) →
+      (∀ r ∈ D, ∀ m1 m2, matchRule r.m p m1 = matchRule r.m p m2) →
+      walkList call p (D ++ localReturn :: rest) m =
+        .fall (if (D.find? (fun r => matchRule r.m p m0)).isSome then some c.tmark else m) := by
+    intro D rest m hDt hind
+    induction D generalizing m with
+    | nil => simp [walkList, localReturn, matchRule, hl]
+    | cons r t ih =>
+      have hr := hDt r List.mem_cons_self
+      have iht := fun m' => ih m' (fun x hx => hDt x (List.mem_cons_of_mem _ hx))
+        (fun x hx => hind x (List.mem_cons_of_mem _ hx))
+      rw [List.cons_append]
+      unfold walkList
+      by_cases hm : matchRule r.m p m0 = true
+      · rw [hind r List.mem_cons_self m m0, if_pos hm, hr, List.find?_cons_of_pos (by simpa using hm)]
+        simp only [iht (some c.tmark)]
+        split <;> simp
+      · rw [hind r List.mem_cons_self m m0, if_neg hm, List.find?_cons_of_neg (by simpa using hm)]
+        exact iht m
+  rw [key _ _ m0 (by intro r hr; simp only [List.mem_map] at hr; obtain ⟨ns, _, rfl⟩ := hr; rfl)
+    (by intro r hr m1 m2; simp only [List.mem_map] at hr; obtain ⟨ns, _, rfl⟩ := hr
+        simp [matchRule, tproxyDnsMatch]), hD]
+
+/-- tproxy, packet to one of the host's own addresses: only DNS to a listed name server is taken. -/
+theorem tproxy_verdict_local (c : Call) (p : Pkt)
+    (hfam : c.family = AF_INET ∨ c.family = AF_INET6) (hp : p.fam6 = isV6 c.family)
+    (hl : p.dstLocal = true) (hmark : p.mark ≠ some c.tmark) (hs : Mask32Safe c p) :
+    verdictTproxy (load (tproxyCmds c)) p =
+      if Spec.isDnsToNs c.nslist p then .divert c.dnsport else .untouched := by
+  obtain ⟨hM, hT, hO, hP⟩ := tproxy_load c
+  have hpre : ∀ mark, (walkChain (load (tproxyCmds c)) (.ipt (isV6 c.family) .mangle) p walkFuel
+      .prerouting mark).verdict = if Spec.isDnsToNs c.nslist p then .divert c.dnsport else .untouched := by
+    intro mark
+    show (walkChain _ _ _ (3 + 1) _ _).verdict = _
+    rw [walkChain_succ, hP, walkList_jump_single]
+    rw [walkChain_succ, hT, tproxyChain_local c _ p mark hfam hp hl hs]
+    simp [matchRule]
+  have hout : walkChain (load (tproxyCmds c)) (.ipt (isV6 c.family) .mangle) p walkFuel .output p.mark
+      = .fall (if Spec.isDnsToNs c.nslist p then some c.tmark else p.mark) := by
+    show walkChain _ _ _ (3 + 1) _ _ = _
+    rw [walkChain_succ, hO]
+    unfold walkList
+    simp only [matchRule, Bool.not_false, Bool.true_or, Bool.and_self, if_true]
+    rw [walkChain_succ, hM, tproxyMark_local c _ p p.mark hfam hp hl hs]
+    simp [walkList]
+  unfold verdictTproxy
+  rw [hp, hout]
+  simp only [hpre, Res.markOr]
+  cases hd : Spec.isDnsToNs c.nslist p with
+  | false => simp
+  | true =>
+    have : ¬ (some c.tmark = p.mark) := fun h => hmark h.symm
+    simp [this]
 end Sshuttle.Fw
